@@ -1,4 +1,7 @@
 import Driver.Thrift
+import Driver.Thrift2
+import Driver.Pb
+import Driver.Idl
 /-
   `pmodel`: reads request lines on stdin, prints the model's answer line for each.
 -/
@@ -10,7 +13,7 @@ def answerLine (line : String) : String :=
   else match Sexp.parseLine t with
     | none => "bad-request"
     | some items =>
-      match Driver.Thrift.answer items with
+      match [Driver.Thrift.answer, Driver.Thrift2.answer, Driver.Pb.answer, Driver.Idl.answer].findSome? (· items) with
       | some a => a
       | none => "bad-request"
 
